@@ -34,7 +34,7 @@ BATCH = 5
 MID_COUNTS = (1 << 24, 1 << 26)
 
 
-def _field_values(fld, cur: int, offsets: list[int], c12: bool):
+def _field_values(fld, cur: int, offsets: list[int], c12: bool, sizes: list[int] = ()):
     w = fld.width
     mx = (1 << (8 * w)) - 1
     vals = []
@@ -52,8 +52,11 @@ def _field_values(fld, cur: int, offsets: list[int], c12: bool):
         if w >= 4 and not c12:
             # large enough to matter if something is sized by it, small enough that the allocation succeeds quietly
             base += list(MID_COUNTS)
+            # two's complements: read as signed these step a walk backwards - by this structure's own length, by the length of
+            # a neighbouring one, by a few bytes
+            base += [(-cur) & mx, (-8) & mx, (-1 - cur) & mx] + [(-o) & mx for o in sizes[:6]]
     elif fld.kind == "version":
-        base += list(range(0, 8)) + [cur + 2, 0x100, 0x10000, 0x401, 0x3FF] if c12 else [cur + 2]
+        base += (list(range(0, 8)) + [cur + 2, 0x100, 0x10000, 0x401, 0x3FF] + [cur ^ (1 << b) for b in range(8 * w)]) if c12 else [cur + 2]
     elif fld.kind == "flags":
         base += [cur ^ (1 << b) for b in range(min(8 * w, 24 if c12 else 8))]
     elif fld.kind == "table":
@@ -74,16 +77,20 @@ def enumerate_faults(spec: dict, c12: bool) -> list:
         b = bases.build(spec, w)
         faults = []
         offsets = []
+        sizes = []
         for path, fld in b.fields:
-            if fld.kind == "offset" and fld.width <= 8:
+            if fld.kind in ("offset", "size") and fld.width <= 8 and path in w.fs.files:
                 cur = int.from_bytes(w.fs.files[path].pread(fld.off, fld.width), "little" if fld.endian == "<" else "big")
-                offsets.append(cur)
+                if fld.kind == "offset":
+                    offsets.append(cur)
+                elif 0 < cur < (1 << 24) and cur not in sizes:
+                    sizes.append(cur)
         for path, fld in b.fields:
             if path not in w.fs.files:
                 continue
             raw = w.fs.files[path].pread(fld.off, min(fld.width, 8))
             cur = int.from_bytes(raw, "little" if fld.endian == "<" else "big") if fld.width <= 8 else 0
-            for how, val in _field_values(fld, cur, offsets, c12):
+            for how, val in _field_values(fld, cur, offsets, c12, sizes):
                 if c12 and not _is_gate(fld, how, val, cur):
                     continue
                 rel = path[len(w.root):]  # world-independent
@@ -175,8 +182,9 @@ def explicit_gates(spec: dict) -> list:
         for is_user in (0, 1):
             g.append(["vhdx_unknown_required_item", is_user, "unknown metadata item flagged IsRequired"])
     if t == "other" and spec["name"].startswith("hyperv:"):
-        g.append(["hyperv_active_version", 0x300, "unsupported version in the active header"])
-        g.append(["hyperv_active_version", 0x500, "unsupported version in the active header"])
+        # the version is a 32-bit field: values that differ from the supported one in any single bit, low half or high half
+        for v in [0x300, 0x500] + [0x400 ^ (1 << b) for b in range(32) if b != 10] + [0xFFFF0400]:
+            g.append(["hyperv_active_version", v, "unsupported version in the active header"])
         g.append(["hyperv_active_sig", 0, "active header signature"])
     if t == "other" and spec["name"].startswith("envelope"):
         for nm in ("vmware.keyInfo", "vmware.cipherName", "vmware.keyHash"):
@@ -211,7 +219,15 @@ def _plan(prop: str, tier: str, verif_seed: int):
             if c12:
                 faults += [["gate"] + g for g in explicit_gates(spec)]
             else:
-                faults += [["crafted"] + c for c in crafted(spec)]
+                cr = crafted(spec)
+                # pairs: a decompression bomb together with one header field forced to zero or to its maximum (a bound taken
+                # from the wrong copy of a header, or computed from a field nothing else uses, only shows with both)
+                bombs = [c for c in cr if c[0].endswith("_inflate_bomb")][:2]
+                for bomb in bombs:
+                    for f in faults:
+                        if f[0] == "field" and f[6] == "set" and f[8] == "pre" and ".hdr." in f[2] and f[4] <= 8 and f[7] in (0, (1 << (8 * f[4])) - 1):
+                            cr.append(["bomb_plus_field", [bomb[0], bomb[1], f]])
+                faults += [["crafted"] + c for c in cr]
                 faults.append(["none"])
             for f in faults:
                 plan.append((si, f))
@@ -239,7 +255,15 @@ def _indices(prop, tier, verif_seed):
         return f[0] == "field" and any(t in f[2].lower() for t in ("count", "entries", "size", "length")) and isinstance(f[7], int) and f[7] >= (1 << 16)
 
     return [i for i, (si, f) in enumerate(plan)
-            if (f[0] in ("crafted", "gate", "none") or (_mid(f) and f[7] == MID_COUNTS[-1]) or (i + verif_seed) % stride == 0) and not costly(si, f)]
+            if (f[0] in ("crafted", "gate", "none") or (_mid(f) and f[7] == MID_COUNTS[-1]) or _neg(f) or (i + verif_seed) % stride == 0) and not costly(si, f)]
+
+
+def _neg(f) -> bool:
+    """A small negative number in two's complement (not the all-ones / all-ones-minus-one extremes every field gets anyway)."""
+    if f[0] != "field" or f[6] != "set" or f[8] != "pre" or not isinstance(f[7], int) or f[4] < 4 or f[4] > 8:
+        return False
+    mx = (1 << (8 * f[4])) - 1
+    return mx - (1 << 24) < f[7] < mx - 1
 
 
 def _mid(f) -> bool:
@@ -549,6 +573,14 @@ def _f_vmdk_inflate_bomb(world, b, spec, ratio):
             # the bomb replaces grain 0's record; it may spill over following records, which is fine for this fault
             f.write(gsec * 512, struct.pack("<QI", 0, len(bomb)) + bomb)
             return
+
+
+def _f_bomb_plus_field(world, b, spec, arg):
+    bomb, bomb_arg, field_fault = arg
+    r = globals()["_f_" + bomb](world, b, spec, bomb_arg)
+    if r == "skip":
+        return r
+    apply_fault(world, b, spec, field_fault, "pre")
 
 
 def _world_state(world, b):
